@@ -148,11 +148,17 @@ def py_replay(case):
 _drv = {}
 
 
+def prepare(ctx):
+    _drv["exe"] = build(ctx)
+
+
 def driver():
-    if "d" not in _drv:
-        exe = build(Ctx("C07", "quick", 1))
-        _drv["d"] = cbuild.Driver(exe, ["query"])
-    return _drv["d"]
+    if "exe" not in _drv:
+        prepare(Ctx("C07", "quick", 1))
+    k = ("d", os.getpid())
+    if k not in _drv:
+        _drv[k] = cbuild.Driver(_drv["exe"], ["query"])
+    return _drv[k]
 
 
 @st.composite
@@ -208,7 +214,7 @@ SUBS = [
     Sub("fw_enumeration", fn=fw_sweep),
     Sub("py_enumeration", fn=py_sweep),
     Sub("three_way_random", strategy=hop_case(), oracle=hyp_oracle, examples={"quick": 3000, "thorough": 40000},
-        shards={"quick": 1, "thorough": 8}),
+        shards={"quick": 1, "thorough": 8}, prepare=prepare),
 ]
 SUBS[0].replay = fw_replay
 SUBS[1].replay = py_replay
